@@ -175,7 +175,7 @@ def compare_dirs(ref, other, same_path_set, exact_orderp=True):
 # ----------------------------------------------------------------------------- scenarios
 def fam_cfg(fam, steps=None, workers=1):
     return {"nintf": fam["nintf"], "workers": workers, "steps": fam["N"] if steps is None else steps, "seed": fam["seed"],
-            "moves": fam["moves"], "delete_old": fam["delete_old"], "allowmaxlength": True}
+            "moves": fam["moves"], "delete_old": fam["delete_old"], "allowmaxlength": True, "cap": fam.get("cap")}
 
 
 def steps_chain_ops(d, fam, chain, fresh=False):
@@ -207,16 +207,20 @@ def multi_ops(d, fam, W, policy, kills):
 
 
 def fam_tag(fam):
-    return f"{fam['engine']}-{fam['mtag']}-s{fam['seed']}-N{fam['N']}"
+    cap = "" if fam.get("cap") is None else f"-cap{fam['cap']}"
+    return f"{fam['engine']}-{fam['mtag']}-s{fam['seed']}-N{fam['N']}{cap}"
 
 
 # ----------------------------------------------------------------------------- predicates, one worker
 def check_w1(ctx, fam, ref, d, kind, chain, res):
     """the property for one restarted run `d` against the uninterrupted reference `ref`"""
     rep = {"engine": fam["engine"], "moves": fam["moves"], "mtag": fam["mtag"], "seed": fam["seed"], "N": fam["N"],
-           "nintf": fam["nintf"], "delete_old": fam["delete_old"], "workers": 1, "kind": kind, "chain": list(chain)}
+           "nintf": fam["nintf"], "delete_old": fam["delete_old"], "cap": fam.get("cap"), "workers": 1, "kind": kind,
+           "chain": list(chain)}
     ctx.count(1, engine=fam["engine"], kind=kind, seed=("0" if fam["seed"] == 0 else "nonzero"), moves=fam["mtag"])
-    ctx.distinct((fam["engine"], fam["mtag"], fam["seed"], fam["N"], kind, tuple(chain)))
+    ctx.distinct((fam["engine"], fam["mtag"], fam["seed"], fam["N"], kind, tuple(chain), fam.get("cap")))
+    if fam.get("cap") is not None:
+        ctx.hit("interface_cap=set")
     if not res.get("ok"):
         ctx.fail("C06:run-raised", f"{kind} {chain}: {res.get('error')}", dict(rep, trace=res.get("trace")))
         return False
@@ -234,12 +238,12 @@ def check_w1(ctx, fam, ref, d, kind, chain, res):
             elif any(st[0] != fam["seed"] for st in y["streams"] + y["eng_streams"]):
                 sig = "C06:restart:entropy-not-seed"
                 what = f"job {i} after the restart draws from stream {y['streams']} (entropy is not the seed {fam['seed']}); in one go {x['streams']}"
-            elif [st[1] for st in x["streams"]] != [st[1] for st in y["streams"]]:
-                sig = "C06:restart:spawn-ordinal-not-continued"
-                what = f"job {i}: stream {y['streams']} after the restart, {x['streams']} in one go"
             elif (x["ens"], x["pn"]) != (y["ens"], y["pn"]):
                 sig = "C06:restart:different-job-picked"
                 what = f"job {i}: (ens {y['ens']}, path {y['pn']}) after the restart, (ens {x['ens']}, path {x['pn']}) in one go"
+            elif [st[1] for st in x["streams"]] != [st[1] for st in y["streams"]]:
+                sig = "C06:restart:spawn-ordinal-not-continued"
+                what = f"job {i}: stream {y['streams']} after the restart, {x['streams']} in one go"
             else:
                 sig, what = "C06:restart:job-streams-differ", f"job {i}: {y} vs {x}"
             rep["first_differing_job"] = i
@@ -258,7 +262,8 @@ def check_w1(ctx, fam, ref, d, kind, chain, res):
 # ----------------------------------------------------------------------------- predicates, several workers
 def check_multi(ctx, fam, W, policy, kills, d, d2, res, res2):
     rep = {"engine": fam["engine"], "moves": fam["moves"], "mtag": fam["mtag"], "seed": fam["seed"], "N": fam["N"],
-           "nintf": fam["nintf"], "delete_old": fam["delete_old"], "workers": W, "policy": policy, "kind": "multi",
+           "nintf": fam["nintf"], "delete_old": fam["delete_old"], "cap": fam.get("cap"), "workers": W, "policy": policy,
+           "kind": "multi",
            "chain": list(kills)}
     tag = f"{fam_tag(fam)} W={W} {policy} kills={list(kills)}"
     ctx.count(1, engine=fam["engine"], kind="multi", workers=W, restarts=len(kills))
@@ -378,11 +383,20 @@ def plan(ctx):
         for seed in (1, 7):
             fams.append({"engine": "lattice", "mtag": "wf5", "moves": ["sh", "sh", "wf", "sh", "wf"], "seed": seed, "N": 24,
                          "nintf": 5, "delete_old": False})
+    # wire-fencing ensembles under an interface cap (weights of re-loaded paths must be computed with the cap too):
+    # lattice [sh, sh, wf, wf, sh] with the cap 13/16 between the last wf interface and the last interface,
+    # TurtleMD wf.toml with a cap inside its last ensemble
+    for seed in ([1, 2] if q else [0, 1, 2, 3, extra_seed]):
+        fams.append({"engine": "lattice", "mtag": "wfcap", "moves": ["sh", "sh", "wf", "wf", "sh"], "seed": seed,
+                     "N": 14 if q else 20, "nintf": 5, "delete_old": (seed % 2 == 0), "cap": 0.8125})
     tur = [(0, "wf", TURTLE_MIX), (1, "wf", TURTLE_MIX), (2, "sh", TURTLE_SH)] if q else \
           [(s, t, m) for s in (0, 1, 2, 3) for t, m in (("wf", TURTLE_MIX), ("sh", TURTLE_SH))]
     for seed, mtag, moves in tur:
         fams.append({"engine": "turtle", "mtag": mtag, "moves": moves, "seed": seed, "N": 10 if q else 14, "nintf": 8,
                      "delete_old": (mtag == "wf")})
+    for seed, cap in ([(1, -0.1)] if q else [(0, -0.1), (1, -0.1), (0, 0.1), (1, 0.1)]):
+        fams.append({"engine": "turtle", "mtag": "wfcap", "moves": TURTLE_MIX, "seed": seed, "N": 12, "nintf": 8,
+                     "delete_old": True, "cap": cap})
     multi = []
     lat = {"engine": "lattice", "mtag": "wf", "moves": ["sh", "sh", "wf", "wf"], "nintf": 4, "delete_old": False}
     lat5 = {"engine": "lattice", "mtag": "wf5", "moves": ["sh", "sh", "wf", "sh", "wf"], "nintf": 5, "delete_old": False}
@@ -469,7 +483,8 @@ def run_w1_families(ctx, pool, base, fams, all_splits=True, chains=None, every=T
         if not rr.get("ok"):
             ctx.fail("C06:run-raised", f"{fam_tag(fam)} reference run: {rr.get('error')}",
                      {"engine": fam["engine"], "moves": fam["moves"], "mtag": fam["mtag"], "seed": fam["seed"], "N": fam["N"],
-                      "nintf": fam["nintf"], "delete_old": fam["delete_old"], "workers": 1, "kind": "twice", "chain": [],
+                      "nintf": fam["nintf"], "delete_old": fam["delete_old"], "cap": fam.get("cap"), "workers": 1,
+                      "kind": "twice", "chain": [],
                       "trace": rr.get("trace")})
             continue
         res = (r1 if phase == 1 else r2)[idx]
@@ -564,6 +579,8 @@ def run(ctx):
         shapes.append((min(fam["nintf"], 6), min(W, 5), fam["N"], fam["seed"], True, kills))
     ctx.extra["model_side_segments"] = model_side(ctx, shapes)
     ctx.assumptions += [
+        "interface_cap: families 'wfcap' (lattice cap 13/16 with moves sh,sh,wf,wf,sh; TurtleMD wf.toml with cap -0.1 / 0.1); "
+        "all other families run without a cap",
         "scope: allowmaxlength = true in every run (the 'initial path' marker lost at a restart — code TODO — would change "
         "the maximal path length of the first moves); order values dyadic (lattice) or whatever TurtleMD produces (run as is)",
         "scope (six decimals): TurtleMD order values are not representable at the six decimals of order.txt; after a restart "
@@ -590,6 +607,7 @@ def replay(ctx, obj):
         model_side(ctx, [(p[0], p[1], p[2], p[3], p[4], tuple(p[5]))])
     else:
         fam = {k: r[k] for k in ("engine", "moves", "mtag", "seed", "N", "nintf", "delete_old")}
+        fam["cap"] = r.get("cap")
         base = tempfile.mkdtemp(prefix="vp-c06-replay-", dir=SCRATCH)
         pool = legs.LegPool(2)
         try:
